@@ -28,7 +28,9 @@ func PlacementFile(pkg, goName string, queryKinds []spec.T, cards []spec.Card, w
 	f := &spec.File{Path: "place/" + goName + "/place.proto", Package: pkg, GoImport: "lab/gen/" + goName, GoName: goName}
 	f.Enums = []*spec.EnumDef{{Name: "PEnum", Values: []spec.EnumValue{{Name: "P_ENUM_UNSPECIFIED", Num: 0}, {Name: "P_ENUM_ONE", Num: 1}, {Name: "P_ENUM_TWO", Num: 2}}}}
 	f.Messages = []*spec.Message{{Name: "PlaceResp", Fields: []*spec.Field{spec.F("echo", 1, spec.String), spec.F("count", 2, spec.Int64), spec.F("ratio", 3, spec.Double), spec.F("blob", 4, spec.Bytes), spec.F("tags", 5, spec.String).Rep()}}}
-	svc := &spec.Service{Name: "PlaceService", BasePath: spec.S("/pl")}
+	// three optional service-level headers: they never block a request, but the OpenAPI and client
+	// generators carry a per-service parameter table next to each operation's own URL parameters
+	svc := &spec.Service{Name: "PlaceService", BasePath: spec.S("/pl"), Headers: []spec.Header{{Name: "X-Trace-Id", Type: "string"}, {Name: "X-Tenant", Type: "string"}, {Name: "X-Debug", Type: "boolean"}}}
 	f.Services = []*spec.Service{svc}
 	var cases []*PlaceCase
 	n := 0
